@@ -75,6 +75,14 @@ theorem remembered_at_least_window (w : Nat) (ops : List (Op κ)) (hw : WellTime
     have := one_per_window w ops hw i j k ti tj hi ⟨hj, hb⟩ hij
     omega
 
+/-- **the window counts from the clock reading taken in the critical section**: `WellTimed` (readings non-decreasing in
+    lock order) cannot be dropped from `one_per_window`.  If an arrival uses a reading taken *before* it queued for the lock
+    (here: reading 0 used by the second operation, whose predecessor already read 150), the key is accepted again at 170 –
+    more than a window after the stale reading, but only 20 after the section in which the first one was accepted. -/
+theorem window_needs_section_clock_witness :
+    let ops : List (Op String) := [.arrive "other" 150, .arrive "a" 0, .clean 101 160, .arrive "a" 170]
+    accepted 100 ops 1 "a" 0 ∧ accepted 100 ops 3 "a" 170 ∧ ¬ WellTimed ops ∧ ¬ (150 + 100 < 170) := by decide
+
 /-! ## keys do not interact -/
 
 /-- **frame property**: the verdicts on the arrivals of `k` are a function of the arrivals of `k` and the clean-ups alone –
